@@ -211,6 +211,8 @@ pub use keys::secp256k1;
 pub use keys::{ed25519_dalek, CombinedKey, CombinedPublicKey};
 
 pub use builder::Builder;
+#[cfg(enr_verif)]
+pub use keys::verif_hooks;
 pub use keys::{EnrKey, EnrKeyUnambiguous, EnrPublicKey};
 pub use node_id::NodeId;
 use std::marker::PhantomData;
